@@ -23,6 +23,43 @@ CHECKS = {
              "operation string in {extract,peek}^5 plus drain, ties and a pre-cancelled entry included; complete state graph for "
              "selected strings (thorough: all 32, also with spurious CAS failures).",
         note="Sequentially consistent interleavings only; <=6 messages, <=3 producers; digest completeness for the stateful runs."),
+    "C16": dict(
+        engine="seqx", technique="exhaustive enumeration of all ordered triples of a structured event alphabet through the real comparators",
+        level="model_checking", design_ref="DESIGN.md 4/C16",
+        text="Strict-weak-order axioms and content-only dependence of msg_is_before and q_elem_is_before decided on every ordered triple "
+             "of 180 (thorough 360) events incl. all payload-size classes and byte positions, plus 6 non-content variants of each.",
+        note="Finite alphabet (3 types, 5 payload sizes, 5 content variants); compiled with gcc -O2."),
+    "C14": dict(
+        engine="seqx", technique="exhaustive enumeration of all (LPs, ranks, threads) triples through the real partitioning and routing code",
+        level="model_checking", design_ref="DESIGN.md 4/C14",
+        text="Every triple with ranks<=LPs<=200 (thorough 700), ranks,threads<=12 (16) through real lp_global_init/lp_init/lp_fini and "
+             "lid_to_nid/lid_to_rid; ownership, contiguity, coverage, no idle thread, routing==ownership for every LP.",
+        note="Per-LP initialisation work stubbed; ranks without LPs outside the domain."),
+    "C12": dict(
+        engine="seqx", technique="explicit-state BFS over the complete reachable state space of scaled-down arenas + depth-bounded "
+        "exhaustive operation sequences on production constants, against a shadow model",
+        level="model_checking", design_ref="DESIGN.md 4/C12",
+        text="All operations from all 459k reachable states of two 8-leaf arenas (both address orders), three arenas in all 6 address "
+             "orders to depth 6, and all operation sequences to depth 4 (thorough 5) on the production constants with checkpoints and "
+             "restores interleaved; validity, alignment, disjointness, content stability, realloc prefix, clean failure, reuse after free.",
+        note="Scaled-down arenas via the guarded constants override; arena addresses chosen by the harness."),
+    "C05": dict(
+        engine="seqx", technique="exhaustive enumeration of allocator histories x checkpoint intervals x rollback targets through the real "
+        "checkpoint/restore code with coast forward, against shadow snapshots",
+        level="model_checking", design_ref="DESIGN.md 4/C05",
+        text="Every history of 5 (thorough 6) allocator events x interval 1..3 x rollback target x second rollback on small arenas incl. "
+             "growth to 3 arenas after the restored checkpoint, and 4 (5) events on production constants: restored state, coast forward, "
+             "re-execution of the undone suffix and repeated rollback all equal the first run.",
+        note="Re-allocated blocks compared by identity/size/content (not address); event suppression and RNG replay are checked "
+             "end-to-end by the whole-runtime checks."),
+    "C13": dict(
+        engine="seqx", technique="exhaustive enumeration of histories x checkpoint schedules x GVT values x rollbacks through the real "
+        "fossil-collection code, against a shadow model",
+        level="model_checking", design_ref="DESIGN.md 4/C13",
+        text="Every history of <=4 (thorough 5) events with ties and local/remote sent entries x interval 1..4 x every GVT value at, "
+             "between and beyond timestamps x every legal rollback x second collection: kept checkpoint, re-based references, retained "
+             "events, exactly-once release, exact state after rollback.",
+        note="Rollback driver replicates the static do_rollback/silent_execution logic of process.c."),
 }
 
 NOT_YET = "check not built yet (work in progress; see DESIGN.md section 7)"
